@@ -460,6 +460,29 @@ Plan gen_sched_plan(uint64_t run_seed, const GenOpts& o)
         }
         return p;
     }
+    // PartialSVDSolver tasks (each on its own matrix: the solver builds its operator internally); edge pre-emption always on
+    if (o.force_family < 0 ? r.chance(0.06) : o.force_family == F_SVD)
+    {
+        if (p.edge_gap == 0) p.edge_gap = (long) std::llround(std::pow(10.0, 2.0 + 3.0 * r.real01()));
+        if (T > 4) T = 2 + (int) r.below(3);
+        GenOpts gs = o;
+        gs.thorough = false;
+        gs.force_family = F_SVD;
+        for (int t = 0; t < T; t++)
+        {
+            TaskSpec ts;
+            ts.w = gen_world("C16", mix64(run_seed, 0x5FD20 + (uint64_t) t), gs);
+            ts.w.scalar = S_DOUBLE;
+            Op c0;
+            c0.kind = OP_COMPUTE;
+            c0.maxit = 1 + (long) rs.below(20);
+            c0.tol = std::pow(10.0, rs.real(-10.0, -4.0));
+            ts.script.push_back(c0);
+            if (rs.chance(0.3)) { Op c1 = c0; c1.maxit = 1 + (long) rs.below(6); ts.script.push_back(c1); }
+            p.tasks.push_back(ts);
+        }
+        return p;
+    }
     GenOpts g = o;
     g.thorough = false;
     TaskSpec first;
